@@ -3,6 +3,7 @@ package checks
 import (
 	"context"
 	"encoding/json"
+	"errors"
 	"fmt"
 	"strings"
 	"time"
@@ -26,6 +27,7 @@ type c18Case struct {
 	Seq    []string `json:"seq"`
 	Table  int      `json:"table"`
 	PutBuf bool     `json:"put_buf,omitempty"` // the "reuse the Put buffer" scenario instead
+	Via    string   `json:"via,omitempty"`     // ... through which writing call the buffer was passed
 	// Pre: what happened to the store between the Put and the read that hands the value out
 	// ("fill": neighbours written until the entry's table is sealed and a new one is active;
 	// "compact": compaction of every partition; "churn" as in the follow-up events)
@@ -89,7 +91,15 @@ func c18Cases(tier string) []c18Case {
 			}
 		}
 		for _, t := range []int{128, 1 << 16} {
-			cs = append(cs, c18Case{Path: p, Table: t, PutBuf: true})
+			// every public call that takes a value to store
+			for _, via := range []string{"Put", "Put+EX", "Put+NX", "GetPut", "Pipeline.Put", "Pipeline.Put+EX", "Pipeline.GetPut"} {
+				if strings.HasPrefix(via, "Pipeline.") && p != "CC" {
+					// the embedded client's Pipeline() opens a cluster client of its own over real TCP,
+					// which does not exist in the simulated network; the pipeline code is the same
+					continue
+				}
+				cs = append(cs, c18Case{Path: p, Table: t, PutBuf: true, Via: via})
+			}
 		}
 	}
 	return cs
@@ -144,13 +154,56 @@ func c18Run(cs c18Case) (string, string) {
 	sig := fmt.Sprintf("handle=%s/path=%s", cs.Handle, cs.Path)
 	if cs.PutBuf {
 		buf := []byte("original-1")
-		if err := dm.Put(ctx, key, buf); err != nil {
-			return "setup", err.Error()
+		var perr error
+		var pipe *olric.DMapPipeline
+		var result func() error
+		if strings.HasPrefix(cs.Via, "Pipeline.") {
+			if pipe, perr = dm.Pipeline(); perr != nil {
+				return "setup", perr.Error()
+			}
+			defer pipe.Close()
 		}
+		switch cs.Via {
+		case "Put":
+			perr = dm.Put(ctx, key, buf)
+		case "Put+EX":
+			perr = dm.Put(ctx, key, buf, olric.EX(time.Hour))
+		case "Put+NX":
+			perr = dm.Put(ctx, key, buf, olric.NX())
+		case "GetPut":
+			_, perr = dm.GetPut(ctx, key, buf)
+		case "Pipeline.Put":
+			var f *olric.FuturePut
+			if f, perr = pipe.Put(ctx, key, buf); perr == nil {
+				result = f.Result
+			}
+		case "Pipeline.Put+EX":
+			var f *olric.FuturePut
+			if f, perr = pipe.Put(ctx, key, buf, olric.EX(time.Hour)); perr == nil {
+				result = f.Result
+			}
+		case "Pipeline.GetPut":
+			var f *olric.FutureGetPut
+			if f, perr = pipe.GetPut(ctx, key, buf); perr == nil {
+				result = func() error { _, err := f.Result(); return err }
+			}
+		}
+		if perr != nil {
+			return "setup", perr.Error()
+		}
+		// the call has returned: the buffer is the caller's again
 		copy(buf, "XXXXXXXXXX")
+		if pipe != nil {
+			if err := pipe.Exec(ctx); err != nil {
+				return "setup", err.Error()
+			}
+			if err := result(); err != nil && !(cs.Via == "Pipeline.GetPut" && errors.Is(err, olric.ErrKeyNotFound)) {
+				return "setup", err.Error()
+			}
+		}
 		got, err := readStored()
 		if err != nil || got != "original-1" {
-			return "put-buffer-aliased/path=" + cs.Path, fmt.Sprintf("after Put returned the caller overwrote its buffer; the stored value now reads %q (err %v)", got, err)
+			return "put-buffer-aliased/path=" + cs.Path + "/via=" + cs.Via, fmt.Sprintf("after %s returned the caller overwrote its buffer; the stored value now reads %q (err %v)", cs.Via, got, err)
 		}
 		return "", ""
 	}
